@@ -117,9 +117,20 @@ func c10Ops() []c10Op {
 		}
 
 		ops = append(ops, c10Op{name: "CSelect(nil)", i: i, j: i})
+
+		for k := range c10BadScalar() {
+			ops = append(ops, c10Op{name: "Decode(invalid)", i: i, j: i, k: k})
+		}
 	}
 
 	return ops
+}
+
+// c10BadScalar lists invalid scalar encodings. A rejected scalar decode may change the receiver (the properties
+// only constrain accepted inputs and the error), so the model re-reads the receiver's value afterwards; what must
+// still hold is that every observation of the scalar is consistent with that value.
+func c10BadScalar() [][]byte {
+	return [][]byte{ref.Bytes32(ref.N), ref.Bytes32(new(big.Int).Sub(ref.Two256(), big.NewInt(1))), make([]byte, 31), {}}
 }
 
 // c10BadElem lists invalid element encodings: decoding them must fail and leave the receiver untouched.
@@ -366,6 +377,12 @@ func c10Apply(st c10State, m c10Model, o c10Op) (ns c10State, nm c10Model, key, 
 			if cerr := r.CSelect(1, r, nil); cerr == nil {
 				err = fmt.Errorf("CSelect with a nil operand reported no error")
 			}
+		case "Decode(invalid)":
+			if derr := r.Decode(c10BadScalar()[o.k]); derr == nil {
+				err = fmt.Errorf("invalid scalar encoding %x accepted", c10BadScalar()[o.k])
+			}
+
+			nm.s[o.i] = ref.OS2IP(r.Encode()) // re-sync: the value after a rejected decode is not specified
 		default:
 			panic("unknown scalar op " + o.name)
 		}
@@ -436,9 +453,25 @@ func c10Apply(st c10State, m c10Model, o c10Op) (ns c10State, nm c10Model, key, 
 		if sc[i].IsZero() != (nm.s[i].Sign() == 0) {
 			return ns, nm, o.name + "/IsZero-differs-from-model", desc()
 		}
+
+		if !bitsAgree(sc[i], nm.s[i]) {
+			return ns, nm, o.name + "/Bits-differs-from-model", desc()
+		}
 	}
 
 	return ns, nm, "", ""
+}
+
+// bitsAgree reports whether s.Bits() is the binary expansion of v.
+func bitsAgree(s *secp256k1.Scalar, v *big.Int) bool {
+	bits := s.Bits()
+	for i := 0; i < 256; i++ {
+		if uint(bits[i]) != v.Bit(i) {
+			return false
+		}
+	}
+
+	return true
 }
 
 func c10ModelString(m c10Model) string {
